@@ -1,6 +1,6 @@
 //! C11 — Schmidt number
 use crate::common::*;
-use crate::fam::hom::{cxs, gen_setup, gen_setup_x, integrator_zoo};
+use crate::fam::hom::{cxs, gen_setup, gen_setup_x, integrator_zoo, RangeArg};
 use spdcalc::math::schmidt_number;
 use spdcalc::prelude::*;
 
@@ -127,8 +127,25 @@ pub fn run(ctx: &mut Ctx) {
     };
     ctx.count(if identical_axes { "setup/axes/identical" } else { "setup/axes/optimum" });
     ctx.count(&format!("setup/family/{}", st.name.split(',').next().unwrap_or("?")));
+    // the range is handed over as each accepted argument type in turn (FrequencySpace, Steps2D<Frequency>,
+    // WavelengthSpace, SumDiffFrequencySpace); "the setup's sampled amplitudes" are those on the signal × idler
+    // frequency grid that argument converts to
+    // (`Steps2D<Frequency>` is exercised through the HOM wrappers of C09/C10 only: here the three range *spaces* are
+    // used, which also implement `IntoSignalIdlerIterator`, so that the harness keeps compiling — and reports a failing
+    // input rather than a build failure — if the bound of `schmidt_number` is changed to that trait)
+    let arg = match RangeArg::pick(c / 2 + c % 2 * (c / 8), range) {
+      RangeArg::Steps(_) => RangeArg::pick([0usize, 2, 3][(c / 3) % 3], range),
+      a => a,
+    };
+    let range = arg.frequency_space();
+    ctx.count(&format!("setup/range-arg/{}", arg.name()));
     let amps = sp.jsa_range(range);
-    let r = guard(|| sp.schmidt_number(range));
+    let r = guard(|| match arg {
+      RangeArg::Freq(rr) => sp.schmidt_number(rr),
+      RangeArg::Wl(rr) => sp.schmidt_number(rr),
+      RangeArg::SumDiff(rr) => sp.schmidt_number(rr),
+      RangeArg::Steps(rr) => sp.schmidt_number(spdcalc::jsa::FrequencySpace::from(rr)),
+    });
     // K: the wrapper against the model fed with the implementation's own samples
     ctx.k("schmidt", &cxs(&amps), &out(&r));
     let direct = call(&amps);
@@ -142,7 +159,7 @@ pub fn run(ctx: &mut Ctx) {
       "C11.wrapper",
       ok,
       &format!("schmidt/setup-eq-array/{}", shape),
-      &format!("setup={} integrator={} axes={} nx={} ny={} samples={} wrapper={} on_samples={}", st.name, iname, if identical_axes { "identical" } else { "optimum" }, nx, ny, amps.len(), out_txt(&r), out_txt(&direct)),
+      &format!("setup={} integrator={} range_arg={} axes={} nx={} ny={} samples={} wrapper={} on_samples={}", st.name, iname, arg.name(), if identical_axes { "identical" } else { "optimum" }, nx, ny, amps.len(), out_txt(&r), out_txt(&direct)),
     );
     let d = ((nx * ny) as f64).sqrt().round() as usize;
     if d * d != nx * ny {
